@@ -47,6 +47,11 @@ func (m *ModelServer) ListConsumables(_ context.Context, request *traits.ListCon
 
 	// page over the unfiltered listing: the read mask may leave out the field the page token is made of
 	sortedItems := m.model.ListConsumables()
+	// the collection lists in the order of its own keys, which an id interceptor can make differ from the
+	// order of the field the page token is made of and the search below relies on
+	sort.Slice(sortedItems, func(i, j int) bool {
+		return sortedItems[i].Name < sortedItems[j].Name
+	})
 	nextIndex := 0
 	if lastKey != "" {
 		nextIndex = sort.Search(len(sortedItems), func(i int) bool {
@@ -136,6 +141,11 @@ func (m *ModelServer) ListInventory(_ context.Context, request *traits.ListInven
 
 	// page over the unfiltered listing: the read mask may leave out the field the page token is made of
 	sortedItems := m.model.ListInventory()
+	// the collection lists in the order of its own keys, which an id interceptor can make differ from the
+	// order of the field the page token is made of and the search below relies on
+	sort.Slice(sortedItems, func(i, j int) bool {
+		return sortedItems[i].Consumable < sortedItems[j].Consumable
+	})
 	nextIndex := 0
 	if lastKey != "" {
 		nextIndex = sort.Search(len(sortedItems), func(i int) bool {
